@@ -320,6 +320,69 @@ fn triples_years(env: &mut Env, years: std::sync::Arc<Vec<i64>>) {
     });
 }
 
+/// every `stride`-th day of the whole range (phase from the seed): a defect confined to a band of
+/// `stride` or more consecutive days anywhere in the range is met, not only near the boundaries
+fn days_stride(env: &mut Env, stride: i64) {
+    let phase = (env.seed % stride as u64) as i64;
+    const CH: i64 = 1 << 16;
+    let total = (cal::MAX_DAY - cal::MIN_DAY) / stride;
+    let n_chunks = (total / CH + 1) as u64;
+    env.run_fast::<Days>(n_chunks, move |c, fs| {
+        let mut bad = Vec::new();
+        for k in 0..CH {
+            let day = cal::MIN_DAY + phase + (c as i64 * CH + k) * stride;
+            if day > cal::MAX_DAY {
+                break;
+            }
+            fs.evaluations += 1;
+            let cur = cal::ymd_from_days(day);
+            let ok = catch(|| fast_day_ok(day, cur)).unwrap_or(false);
+            if !ok && bad.len() < 64 {
+                bad.push(DayCase { day });
+            }
+        }
+        bad
+    });
+}
+
+/// probe dates in every one of the 11.76 M years: first / middle / last day of every month, the end
+/// of February and one step outside - a defect confined to (part of) one year is met
+fn triples_every_year(env: &mut Env) {
+    const CH: i64 = 4096;
+    let (ylo, yhi) = (-5_879_612i64, 5_879_612i64);
+    let n_chunks = ((yhi - ylo) / CH + 1) as u64;
+    env.run_fast::<Triples>(n_chunks, move |c, fs| {
+        let mut bad = Vec::new();
+        for y in (ylo + c as i64 * CH)..=(ylo + c as i64 * CH + CH - 1).min(yhi) {
+            for m in 1..=12u32 {
+                let ml = if y == 0 { 0 } else { cal::month_len(y, m) };
+                let ds: [u32; 4] = if m == 2 { [1, 28, 29, 30] } else { [1, 15, ml, ml + 1] };
+                for d in ds {
+                    fs.evaluations += 1;
+                    let mut valid = y != 0 && d >= 1 && d <= ml;
+                    if valid && (y <= cal::MIN_YMD.0 || y >= cal::MAX_YMD.0) {
+                        valid = cal::valid_in_range(y, m, d);
+                    }
+                    let ok = catch(|| {
+                        let r1 = Date::from_ymd(y as i32, m, d);
+                        if valid {
+                            let ts = (cal::days_from_ymd(y, m, d) - cal::DAYS_TO_1970) * 86_400;
+                            matches!(r1, Ok(v) if v.timestamp() == ts)
+                        } else {
+                            matches!(r1, Err(AstrolabeError::OutOfRange(_)))
+                        }
+                    })
+                    .unwrap_or(false);
+                    if !ok && bad.len() < 64 {
+                        bad.push(TripleCase { y: y as i32, m, d });
+                    }
+                }
+            }
+        }
+        bad
+    });
+}
+
 fn boundary_years() -> Vec<i64> {
     let mut ys: Vec<i64> = Vec::new();
     ys.extend(-5_879_612..=-5_879_600);
@@ -363,6 +426,10 @@ pub fn run(env: &mut Env) {
             days_window(env, lo, hi);
         }
         triples_years(env, std::sync::Arc::new(boundary_years()));
+        // sweeps over the whole domain: every 11th day, and 48 probe dates in every year
+        days_stride(env, 11);
+        triples_every_year(env);
+        env.exhaustive_parts.push("C01 (quick): every 11th day number of the whole range (phase from the seed) and 48 probe dates (first / 15th / last / last+1 of every month, 28-30 February) in every year -5879612..=5879612".into());
         env.run_random::<Days>(1_000_000);
         env.run_random::<Triples>(1_500_000);
     }
